@@ -325,6 +325,46 @@ def rule_i7(F):
     return r
 
 
+CTOR_OF = {"Option": "option", "Verdict": "verdict", "Result": "result", "List": "list"}
+
+
+def rule_i8(F):
+    """'With the declared signature': the Roto type a registered item is given is built from the Rust type description component by
+    component - TypeDescription::X(c0, c1) becomes Type::x(conv(c0), conv(c1)), same constructor, same order, every component
+    converted by the recursive call."""
+    r = RuleResult("C18.I8", "rust_type_to_roto_type: each constructor maps to the Roto constructor of the same name with its components in the same order", floor=4)
+    ps = [p for p in F.paths() if p.endswith("TypeChecker::rust_type_to_roto_type")]
+    if not ps:
+        r.missing("TypeChecker::rust_type_to_roto_type")
+        return r
+    b = F.body(ps[0])
+    ld = hir.LocalDefs(b.hir)
+    ms = hir.find_match_on(b.hir["value"], "TypeDescription::", min_arms=4)
+    if not ms:
+        r.missing("match over TypeDescription in rust_type_to_roto_type")
+        return r
+    for arm in ms[0]["arms"]:
+        v = hir.last(hir.pat_paths(arm["pat"])[0])
+        if v not in CTOR_OF:
+            continue
+        binds = [l for (_, l) in hir.pat_bindings(arm["pat"])]
+        calls = [c for c in hir.nodes(arm["body"], "call") if hir.last(hir.call_def(c) or "") == CTOR_OF[v] and "types::Type" in (hir.call_def(c) or "")]
+        order = None
+        if calls:
+            order = []
+            for a in calls[0]["args"]:
+                locs = [hir.res_local(n) for n in hir.walk_expanded(ld, a) if n.get("k") == "path" and hir.res_local(n) in binds]
+                rec = any((hir.call_def(n) or "").endswith("rust_type_to_roto_type") for n in hir.walk_expanded(ld, a) if n.get("k") == "call")
+                order.append((binds.index(locs[0]) if len(set(locs)) == 1 else None, rec))
+        r.inst("TypeDescription::%s" % v, {"constructor": v, "roto_constructor_found": bool(calls), "component_order": order})
+        if not calls:
+            r.bad(b.path, "TypeDescription::%s constructor" % v, relfile(b.file), arm["line"], "TypeDescription::%s is not turned into Type::%s(..)" % (v, CTOR_OF[v]))
+        elif order != [(i, True) for i in range(len(binds))]:
+            r.bad(b.path, "TypeDescription::%s components" % v, relfile(b.file), arm["line"],
+                  "the components of %s are passed to Type::%s as %s (position, converted recursively) instead of in their own order: a registered function mentioning %s<A, B> is declared to scripts with the arguments swapped or unconverted" % (v, CTOR_OF[v], order, v))
+    return r
+
+
 def rule_i5(F):
     r = RuleResult("C18.I5", "every TypeChecker::declare_runtime_* result becomes a RegistrationError and is propagated", floor=6)
     n = 0
@@ -376,4 +416,4 @@ def rule_i5(F):
 
 def rules(ctx):
     F = ctx["F"]
-    return [rule_i1(F), rule_i2(F), rule_i3(F), rule_i4(F), rule_i5(F), rule_i6(F), rule_i7(F)]
+    return [rule_i1(F), rule_i2(F), rule_i3(F), rule_i4(F), rule_i5(F), rule_i6(F), rule_i7(F), rule_i8(F)]
